@@ -205,6 +205,24 @@ macro_rules! range_impl {
                         }
                         dec_compact(&d, out);
                     }
+                    26 => {
+                        // decode_iid_symbols(k, model), drained with a cap: the iterator must yield
+                        // exactly k items even if the decoder keeps failing
+                        let m = &models[r.us()];
+                        let k = r.us();
+                        let items: Vec<Int> = with_p!($Pr, m.p, $plist, |tm| {
+                            d.decode_iid_symbols(k, tm)
+                                .take(k + 4)
+                                .flat_map(|x| match x {
+                                    Ok(s) => [0, s as Int],
+                                    Err(_) => [ERR_INVALID, 0],
+                                })
+                                .collect()
+                        }, &m.t);
+                        out.push((items.len() / 2) as Int);
+                        out.extend(items);
+                        dec_compact(&d, out);
+                    }
                     21 => out.push(d.maybe_exhausted() as Int),
                     22 => {
                         let i = r.us();
